@@ -680,6 +680,22 @@ func checkC10(p *core.Program, r *core.Report) {
 					if mc, ok := ci.Common().Value.(*ssa.MakeClosure); ok && always[mc.Fn.(*ssa.Function)] {
 						okFail = true
 					}
+					// the same thing written as a function or method of the package
+					if g := ci.Common().StaticCallee(); g != nil && g.Blocks != nil && core.FuncPkgPath(g) == core.FuncPkgPath(e.tryResume) {
+						if _, done := always[g]; !done {
+							m := settledAnalysis(g, e.statusField, nil, nil)
+							ok := len(core.Returns(g)) > 0
+							for _, gr := range core.Returns(g) {
+								if !m.At(gr) {
+									ok = false
+								}
+							}
+							always[g] = ok
+						}
+						if always[g] {
+							okFail = true
+						}
+					}
 				}
 			}
 			r.Check(okFail, "R3", key, p.Pos(ret.Pos()), "nil after failSession", "returns nil without ending the session as failed")
@@ -949,9 +965,26 @@ func c10R4(p *core.Program, r *core.Report) {
 							v = decide(ret.Results[0])
 						}
 						if v == core.Unk {
-							if phi, ok := ret.Results[0].(*ssa.Phi); ok {
-								_ = phi
+							// a result variable: the value that flowed in over the edge this path took
+							rv := ret.Results[0]
+							for k := 0; k < 4; k++ {
+								phi, ok := rv.(*ssa.Phi)
+								if !ok {
+									break
+								}
+								in := pathIncoming(s, phi)
+								if in == nil {
+									break
+								}
+								rv = in
 							}
+							if c, ok := rv.(*ssa.Const); ok && c.Value != nil {
+								v = boolAB(c.Value.String() == "true")
+							} else {
+								v = decide(rv)
+							}
+						}
+						if v == core.Unk {
 							undecided = true
 							return
 						}
@@ -1004,4 +1037,20 @@ func constStringOf(c *types.Const) (string, bool) {
 		s = s[1 : len(s)-1]
 	}
 	return s, true
+}
+
+// pathIncoming: the operand of phi for the predecessor through which the explored path last entered the phi's block.
+func pathIncoming(s *core.PathState, phi *ssa.Phi) ssa.Value {
+	b := phi.Block()
+	for i := len(s.Blocks) - 1; i > 0; i-- {
+		if s.Blocks[i] == b.Index {
+			for k, pr := range b.Preds {
+				if pr.Index == s.Blocks[i-1] {
+					return phi.Edges[k]
+				}
+			}
+			return nil
+		}
+	}
+	return nil
 }
